@@ -166,8 +166,9 @@ def run(tier):
     nref = len(bad)
     bad = [(fam, t, m) for fam, t, m in bad if fam not in ("scale", "spindex", "syntax") or ref[t][0] is None]
     dropped_by_referee = nref - len(bad)
-    # (vi) junk in front of a malformed line does not rescue it: characters that are neither letters nor the comment (';') / macro ('%') markers
-    JUNK = [chr(c) for c in range(0x20, 0x7f) if not chr(c).isalpha() and chr(c) not in ";%"] + ["\t"]
+    # (vi) junk in front of a malformed line does not rescue it: characters that are neither letters nor the comment (';') / macro ('%') /
+    # label (':') markers - a line with a ':' is a label line and is skipped as a whole, as documented
+    JUNK = [chr(c) for c in range(0x20, 0x7f) if not chr(c).isalpha() and chr(c) not in ";%:"] + ["\t"]
     pool = [b for b in bad if b[0] != "hibyte"]
     for ch in JUNK:
         for fam, t, m in rnd.sample(pool, 12 if not full else 150) + [("syntax", "bogus rax, 1", {}), ("syntax", "lea rax, rbx", {}), ("syntax", "mov rax, [rbx+rcx*3]", {})]:
@@ -204,7 +205,7 @@ def run(tier):
     v.cov["rule"] = ("(i) every spec mnemonic x every operand-kind tuple over {scalar reg, xmm, ymm, memory, immediate} with 0-4 operands (781 tuples); a tuple is 'not defined in x86-64' iff nasm rejects ALL its "
                      "instantiations (live referee, %d lines this run), then instantiated for the library; (ii) every one-character edit of every register name that is lexically a name and not a register/keyword, in "
                      "register, memory-base and index positions; (iii) scales 0,3,5,6,7,9,10,16,42 in both factor orders; the stack pointer as scaled index, as index of itself, with every base; (iv) bracket / comma / "
-                     "operand-after-immediate / empty-operand / unknown-mnemonic syntax errors; (v) bytes 0x7f-0xff at positions of 8 template lines; (vi) lines of (i)-(iv) behind 1-3 junk characters (every printable non-letter except ';' and '%%'). Each alone and first/middle/last in a program with valid neighbours, "
+                     "operand-after-immediate / empty-operand / unknown-mnemonic syntax errors; (v) bytes 0x7f-0xff at positions of 8 template lines; (vi) lines of (i)-(iv) behind 1-3 junk characters (every printable non-letter except ';', '%%' and ':'). Each alone and first/middle/last in a program with valid neighbours, "
                      "option combos sampled. Oracle: rc == EXIT_FAILURE and no byte at or after the rejected line's start differs from the prefill" % nnasm)
     v.cov["exhaustive"] = False
     v.cov.update(stats)
